@@ -32,8 +32,20 @@ def _guarded(parents, node):
             nm = ast.unparse(p.type) if p.type is not None else ''
             if p.type is None or 'AttributeError' in nm or 'Exception' in nm:
                 return True
-        if isinstance(p, ast.If) and ('hasattr(' in ast.unparse(p.test) or 'getattr(' in ast.unparse(p.test)):
-            return True
+        if isinstance(p, (ast.If, ast.IfExp)):
+            t = ast.unparse(p.test)
+            if 'hasattr(' in t or 'getattr(' in t:
+                return True
+            # a test on a local that holds the outcome of a probe: `f = getattr(np, 'trapezoid', None)` ... `if f is None: f = np.trapz`
+            tested = {x.id for x in ast.walk(p.test) if isinstance(x, ast.Name)}
+            q = parents.get(p)
+            while q is not None and not isinstance(q, (ast.FunctionDef, ast.Module)):
+                q = parents.get(q)
+            if q is not None and tested:
+                for n in ast.walk(q):
+                    if isinstance(n, ast.Assign) and any(isinstance(t_, ast.Name) and t_.id in tested for t_ in n.targets) \
+                            and any(isinstance(c, ast.Call) and ast.unparse(c.func) in ('getattr', 'hasattr') for c in ast.walk(n.value)):
+                        return True
         p = parents.get(p)
     return False
 
@@ -192,10 +204,31 @@ def norm_rules(run, db):
     run.check('rows(h)' in ky and 'cols' not in ky and 'dx' in ky, 'C13.axis', f.qual, 'uy', 'uy = forward_ft_unit(dx, rows)', 'uy is built as %s (expected from dx and the number of rows)' % ky, f.loc())
     # Interferogram.psd wiring
     fi = db.func('prysm.interferogram.Interferogram.psd')
+    # decided by interpreting the method with psd() summarised: what it is given, and which of its results end up as x, y, data
+    from .common import capture_calls, norm_interp as _ni
+    from ..core.interp import Obj
+    it2, dom2 = _ni(db)
+    ci2 = db.cls('prysm.interferogram.Interferogram')
+
+    def mkself():
+        o = Obj(ci2)
+        o.attrs.update({'data': dom2.sym('DATA'), 'dx': dom2.sym('DX'), 'wavelength': dom2.sym('WL'), '_x': Const(None), '_y': Const(None), '_r': Const(None), '_t': Const(None)})
+        return o
+    paths, calls2 = capture_calls(it2, dom2, fi, lambda: {}, {M + 'psd'}, lambda f_, b_: Tup([dom2.sym('UX'), dom2.sym('UY'), dom2.sym('PSD')]), self_obj=mkself)
+    rets = [p_ for p_ in paths if p_.outcome == 'return']
+    key = lambda v_: dom2.rat(v_).key() if v_ is not None and dom2.rat(v_) is not None else repr(v_)
+    okc = len(calls2) == 1 and key(calls2[0][1].get('height')) == 'DATA' and key(calls2[0][1].get('dx')) == 'DX'
+    okr = len(rets) == 1 and isinstance(rets[0].value, Obj)
+    detail = ''
+    if okr:
+        o = rets[0].value
+        got = {a: key(o.attrs.get('_' + a, o.attrs.get(a))) for a in ('x', 'y')}
+        got['data'] = key(o.attrs.get('data'))
+        okr = got == {'x': 'UX', 'y': 'UY', 'data': 'PSD'}
+        detail = str(got)
+    run.check(okc and okr, 'C13.axis', fi.qual, 'wiring', 'Interferogram.psd passes (data, dx) and stores (ux, uy) as (x, y) of the returned spectrum',
+              'Interferogram.psd wiring changed: psd() receives %s; the returned object holds %s' % ([{k: key(v) for k, v in c[1].items()} for c in calls2], detail), fi.loc())
     from ..core.pattern import match_all
-    bw = match_all(fi.node, ['V_ux, V_uy, V_ps = psd(self.data, self.dx)', 'V_p = RichData(V_ps, E_a, E_b)', 'V_p.x = V_ux', 'V_p.y = V_uy', 'return V_p'])
-    run.check(bw is not None, 'C13.axis', fi.qual, 'wiring', 'Interferogram.psd passes (data, dx) and stores (ux, uy) as (x, y)',
-              'Interferogram.psd wiring changed: %s' % [norm_stmt(n) for n in walk_no_nested(fi.node) if isinstance(n, ast.Assign)], fi.loc())
     # broadcast helper: x along columns, y along rows
     fb = db.func('prysm.coordinates.broadcast_1d_to_2d')
     s = {ast.unparse(n.targets[0]): ast.unparse(n.value) for n in walk_no_nested(fb.node) if isinstance(n, ast.Assign)}
@@ -208,13 +241,39 @@ def band_rules(run, db):
     f = db.func(M + 'bandlimited_rms')
     # masks
     from ..core.pattern import find, match_all
-    # the working array is the copy of the PSD that the first integration consumes, whatever it is called
+    # the working array is the copy of the PSD that the first integration consumes, whatever it is called; what is zeroed in it
+    # is decided as a predicate over r (PRED): the union of the zeroed regions must be exactly r < flow or r > fhigh
     copies = {b_['V_w'] for pat in ('V_w = psd.copy()', 'V_w = np.array(psd)', 'V_w = np.copy(psd)') for b_, _ in find(f.node, pat)}
     stores = [n for n in walk_no_nested(f.node) if isinstance(n, ast.Assign) and isinstance(n.targets[0], ast.Subscript) and isinstance(n.targets[0].value, ast.Name)
-              and n.targets[0].value.id in copies and isinstance(n.targets[0].slice, ast.Compare)]
-    txt = sorted(ast.unparse(n.targets[0].slice).replace(' ', '') + '=' + ast.unparse(n.value) for n in stores)
-    run.check(txt == ['r<flow=0', 'r>fhigh=0'] and len({n.targets[0].value.id for n in stores}) == 1, 'C13.band', f.qual, 'band mask', 'samples strictly outside [flow, fhigh] are zeroed (band edges included)',
-              'band mask is %s, expected work[r < flow] = 0 and work[r > fhigh] = 0' % txt, f.loc())
+              and n.targets[0].value.id in copies and isinstance(n.value, ast.Constant) and n.value.value == 0]
+    from ..domains.pred import PredDomain, Pred, eval_pred, p_or
+    from ..domains.normdom import install_pi
+    from ..core.interp import Frame
+    from ..core.norm import Rat
+    pdom = PredDomain(coords=('r',))
+    pit = install_pi(Interp(db, pdom))
+    pit._reset_run([])
+    fr = Frame(f, f.module, {'r': pdom.sym('r'), 'flow': pdom.sym('flow'), 'fhigh': pdom.sym('fhigh')})
+    zeroed = None
+    okp = bool(stores) and len({n.targets[0].value.id for n in stores}) == 1
+    for n in stores:
+        v = pit.ev(n.targets[0].slice, fr)
+        if not isinstance(v, Pred):
+            okp = False
+            break
+        zeroed = v if zeroed is None else p_or(zeroed, v)
+    verdict = {}
+    if okp and zeroed is not None:
+        PR = pdom.R
+        lo, g = Rat(PR.atom('flow')), Rat(PR.atom('gap'))
+        for label, rv, want in (('below the band', lo - g, True), ('lower edge', lo, False), ('inside', lo + g, False), ('upper edge', lo + 2 * g, False), ('above the band', lo + 3 * g, True)):
+            verdict[label] = (eval_pred(zeroed, {'r': rv, 'fhigh': lo + 2 * g}, {'gap', 'flow'}), want)
+        okp = all(got is want for got, want in verdict.values())
+    txt = sorted(ast.unparse(n.targets[0].slice).replace(' ', '') for n in stores)
+    run.check(okp, 'C13.band', f.qual, 'band mask',
+              'samples strictly outside [flow, fhigh] are zeroed (band edges included)',
+              'the samples zeroed in the copy of the PSD are %s: %s -- expected exactly r < flow or r > fhigh'
+              % (txt, ', '.join('%s %s' % (k, 'zeroed' if v[0] else ('kept' if v[0] is False else 'undecided')) for k, v in verdict.items())), f.loc())
     # integration: one integration per axis, each with the frequency step of its own axis, then sqrt
     ints = [n for n in walk_no_nested(f.node) if isinstance(n, ast.Call) and ast.unparse(n.func).split('.')[-1] in ('trapz', 'trapezoid', '_trapezoid', '_trapz')]
     ints.sort(key=lambda n: (n.lineno, n.col_offset))
@@ -367,14 +426,49 @@ def edge_rules(run, db):
     res = it.run(fn, kwargs=lambda: dict(kw))
     run.check(bool(res) and all(p.outcome == 'raise' for p in res), 'C13.band', f.qual, 'edges: none given', 'no band specification raises', 'bandlimited_rms without any band edge does not raise', f.loc())
     # the object method passes the four edges through by name; TIS asks for the band up to 1/wavelength as a FREQUENCY
+    # decided on the values bound to the callee's parameters (positional, keyword or **dict alike)
+    from .common import capture_calls
+    from ..core.interp import Value
+
+    class Opaque(Value):
+        def __init__(self, name):
+            self.name = name
+
+        def __repr__(self):
+            return 'Opaque(%s)' % self.name
     fm = db.func(M + 'Interferogram.bandlimited_rms')
-    calls = [n for n in walk_no_nested(fm.node) if isinstance(n, ast.Call) and ast.unparse(n.func) == 'bandlimited_rms']
-    okm = len(calls) == 1 and {k.arg: ast.unparse(k.value) for k in calls[0].keywords if k.arg in ('wllow', 'wlhigh', 'flow', 'fhigh')} == {'wllow': 'wllow', 'wlhigh': 'wlhigh', 'flow': 'flow', 'fhigh': 'fhigh'}
-    run.check(okm, 'C13.band', fm.qual, 'pass-through', 'the method hands each band edge to the parameter of the same name', 'Interferogram.bandlimited_rms does not pass the band edges through by name', fm.loc())
+    itm, domm = norm_interp(db)
+    ogm, omm = domm.getattr, domm.method
+
+    def getattr_m(v, name, node):
+        if isinstance(v, Opaque):
+            return domm.sym('%s.%s' % (v.name, name))
+        return ogm(v, name, node)
+    domm.getattr = getattr_m
+    cim = db.cls(M + 'Interferogram')
+
+    def mkself_m():
+        o = Obj(cim)
+        o.attrs.update({'data': domm.sym('DATA'), 'dx': domm.sym('DX'), 'wavelength': domm.sym('WL')})
+        return o
+    edges = ('wllow', 'wlhigh', 'flow', 'fhigh')
+    paths, callsm = capture_calls(itm, domm, fm, lambda: {e_: domm.sym(e_.upper()) for e_ in edges}, {M + 'bandlimited_rms', M + 'Interferogram.psd'},
+                                  lambda fi_, b_: Opaque('spectrum') if fi_.name == 'psd' else domm.sym('RMS'), self_obj=mkself_m)
+    cm = [c_ for c_ in callsm if c_[0].name == 'bandlimited_rms']
+    keym = lambda v_: domm.rat(v_).key() if v_ is not None and domm.rat(v_) is not None else repr(v_)
+    okm = len(cm) == 1 and all(keym(cm[0][1].get(e_)) == e_.upper() for e_ in edges) and keym(cm[0][1].get('r')) == 'spectrum.r' and keym(cm[0][1].get('psd')) == 'spectrum.data'
+    run.check(okm, 'C13.band', fm.qual, 'pass-through', 'the method integrates its own PSD over its own radial frequency grid and hands each band edge to the parameter of the same name',
+              'Interferogram.bandlimited_rms calls bandlimited_rms with %s' % [{k: keym(v) for k, v in c_[1].items()} for c_ in cm], fm.loc())
     ft = db.func(M + 'Interferogram.total_integrated_scatter')
-    calls = [n for n in walk_no_nested(ft.node) if isinstance(n, ast.Call) and ast.unparse(n.func) == 'self.bandlimited_rms']
-    okt = len(calls) == 1 and not calls[0].args and {k.arg for k in calls[0].keywords} == {'fhigh'}
-    run.check(okt, 'C13.band', ft.qual, 'TIS band', 'the scatter band [0, 1000/wavelength] is passed as an upper FREQUENCY', 'total_integrated_scatter passes its frequency limit positionally (as a period) to bandlimited_rms', ft.loc())
+    itt, domt = norm_interp(db)
+    paths, callst = capture_calls(itt, domt, ft, lambda: {'wavelength': domt.sym('W'), 'incident_angle': domt.sym('AOI')}, {M + 'Interferogram.bandlimited_rms'},
+                                  lambda fi_, b_: domt.sym('RMS'), self_obj=lambda: Obj(cim))
+    keyt = lambda v_: domt.rat(v_).key() if v_ is not None and domt.rat(v_) is not None else repr(v_)
+    want_hi = (1000 / Rat(domt.R.atom('W')))
+    okt = len(callst) == 1 and set(callst[0][1]) == {'fhigh'} and domt.rat(callst[0][1]['fhigh']) is not None and domt.rat(callst[0][1]['fhigh']) == want_hi
+    run.check(okt, 'C13.band', ft.qual, 'TIS band', 'the scatter band [0, 1000/wavelength] is passed as an upper FREQUENCY',
+              'total_integrated_scatter calls bandlimited_rms with %s: the limit 1000/wavelength must be the upper frequency (fhigh) and nothing else'
+              % [{k: keyt(v) for k, v in c_[1].items()} for c_ in callst], ft.loc())
 
 
 def pure_rules(run, db):
